@@ -13,6 +13,20 @@ func init() {
 	Register("Arith", opArith)
 	Register("Cmp", opCmp)
 	Register("Unary", opUnary)
+	Register("FMA", opFMA)
+}
+
+func opFMA(w *World, st *Step) execResult {
+	a := rawArgs(st)
+	form, x, y := decodeStr(a[0]), decodeInt(a[1]), decodeInt(a[2])
+	var xv interface{}
+	if form == "T" {
+		xv = w.T(x)
+	} else {
+		xv = w.Cfg.Pal.Const(w.Cfg.D, x)
+	}
+	r, err := tensor.FMA(w.T(st.Op.H), xv, w.T(y))
+	return execResult{err: err, ret: retDense(r), mayRefuse: true}
 }
 
 // OpLists: the concrete operators substituted for the placeholder "OP" of each op kind.
